@@ -223,11 +223,12 @@ class HarnessCallback:
 class OSet:
     """Insertion-ordered set; raises RuntimeError on size change during iteration."""
 
-    __slots__ = ("_d", "_lifo")
+    __slots__ = ("_d", "_lifo", "_origin")
 
     def __init__(self, items: Any = (), lifo: bool = False) -> None:
         self._d: dict = dict.fromkeys(items)
         self._lifo = lifo
+        self._origin: Any = None
 
     def add(self, x: Any) -> None:
         self._d[x] = None
@@ -276,15 +277,23 @@ class OSet:
 class HandlerDict(dict):
     """dict that converts the `{cb}` set literals the library stores into OSets."""
 
-    __slots__ = ("lifo",)
+    __slots__ = ("lifo", "_conv")
 
     def __init__(self, lifo: bool = False) -> None:
         super().__init__()
         self.lifo = lifo
+        self._conv: dict = {}
 
     def __setitem__(self, k: Any, v: Any) -> None:
         if type(v) is set:
-            v = OSet(v, self.lifo)
+            # identity preserving: one set object stored under two keys stays ONE container (an aliasing bug in the
+            # library must stay an aliasing bug under the seam); the OSet keeps its origin alive, so ids are not reused
+            o = self._conv.get(id(v))
+            if o is None or o._origin is not v:
+                o = OSet(v, self.lifo)
+                o._origin = v
+                self._conv[id(v)] = o
+            v = o
         super().__setitem__(k, v)
 
     def setdefault(self, k: Any, default: Any = None) -> Any:
